@@ -19,6 +19,9 @@ inductive MOp where
   | batch (i : Nat) (b : Option (List Nat))
   | ctl (c : Ctl)
   | reboot
+  /-- the process is killed in the middle of control `c`: log `i` had performed `ks[i]` of the
+  primitives the control performs on its files (0 when not given); then a new process -/
+  | die (c : Ctl) (ks : List Nat)
 deriving DecidableEq, Repr, Inhabited
 
 /-- `if (store.stamp - flushStamp) >= flushPeriod: for log in logs: log.flush(); flushStamp = store.stamp`
@@ -71,11 +74,17 @@ def setBatch : MSt → Nat → Option (List Nat) → MSt
   | s :: r, 0, b => { s with batch := b } :: r
   | s :: r, i + 1, b => s :: setBatch r i b
 
+/-- every log cut at its own point (`old`: before the control, `new`: after the whole control) -/
+def cutAll : List St → List St → Nat → List Nat → List St
+  | s :: r, s' :: r', i, ks => St.cut s s' (ks.getD i 0) :: cutAll r r' (i + 1) ks
+  | _, _, _, _ => []
+
 def MSt.step (ms : MSt) : MOp → MSt
   | .advance d => ms.map fun x => { x with stamp := x.stamp + d }
   | .batch i b => setBatch ms i b
   | .ctl c => MSt.send ms c
   | .reboot => ms.map St.reboot
+  | .die c ks => cutAll ms (MSt.send ms c) 0 ks
 
 def MSt.exec (ms : MSt) : List MOp → MSt
   | [] => ms
@@ -87,6 +96,7 @@ def projOp (i : Nat) : MOp → Option Op
   | .batch j b => if j = i then some (.batch b) else none
   | .ctl c => some (.ctl c)
   | .reboot => some .reboot
+  | .die c ks => some (.die c (ks.getD i 0))
 
 def proj (i : Nat) (h : List MOp) : List Op := h.filterMap (projOp i)
 
